@@ -331,6 +331,135 @@ def rule_distinct_sources(ctx: Ctx) -> None:
                              construct=f"{f.name}: duplicate test against part of {norm(ap.func.value)}")
     if sites == 0:
         raise AnalysisError("relabel_module: no check_isomorphism-guarded append found")
+    # (c) an explorer that de-duplicates has no *other*, untested way into its list: every further append to that list is the
+    # "repetitions allowed" alternative of a tested one (the else-arm of the `if` that holds the tested append)
+    for f in [x for x in m.tree.body if isinstance(x, ast.FunctionDef)]:
+        tested = []
+        for c in calls_in(f):
+            if call_name(c) != "check_isomorphism" or len(c.args) < 2:
+                continue
+            iff = parent(c)
+            while iff is not None and not isinstance(iff, (ast.If, ast.FunctionDef)):
+                iff = parent(iff)
+            if isinstance(iff, ast.If):
+                for x in ast.walk(iff):
+                    if isinstance(x, ast.Call) and call_attr(x) == "append" and x.args and norm(x.args[0]) == norm(c.args[0]):
+                        tested.append(x)
+        if not tested:
+            continue
+        lists = {norm(t.func.value) for t in tested}
+        for ap in [x for x in calls_in(f) if call_attr(x) == "append" and norm(x.func.value) in lists and not any(x is t for t in tested)]:
+            alt = False
+            q = ap
+            while parent(q) is not None and parent(q) is not f:
+                pq = parent(q)
+                if isinstance(pq, ast.If) and any(q is b for b in pq.orelse) and any(t in list(ast.walk(ast.Module(body=pq.body, type_ignores=[]))) for t in tested):
+                    alt = True
+                q = pq
+            if alt:
+                ctx.ok("distinct.source", m, ap, what=f"{f.name}: untested append is the repetitions-allowed alternative of a tested one")
+            else:
+                ctx.fail("distinct.source", m, ap,
+                         f"{f.name} de-duplicates the graphs it finds with check_isomorphism, but `{short(ap)}` puts a graph into `{norm(ap.func.value)}` without that "
+                         f"test: when this graph equals (or is isomorphic to) one already listed, the result lists it twice", func=f.name,
+                         construct=f"{f.name}: untested append to {norm(ap.func.value)}")
+
+
+# --------------------------------------------------------------------------- node.common-order
+
+
+def rule_common_node_order(ctx: Ctx, sites) -> None:
+    """node.common-order: a method that answers a question about two *labelled* graphs (same vertex set) from their adjacency matrices lays
+    both matrices out in one node order: the same `nodelist=` expression (or sorted(...) on both) is handed to both nx.to_numpy_array
+    calls.  Each graph's own insertion order describes a relabelled graph, and neither equality nor LC equivalence is invariant under
+    relabelling one side."""
+    repo = ctx.repo
+    for rel, q in sites:
+        m = repo.module(rel)
+        fn = repo.anchor(rel, q)
+        ctx.touch(m, fn)
+        arrs = [c for c in calls_in(fn) if (call_name(c) or "").split(".")[-1] in ("to_numpy_array", "adjacency_matrix", "to_numpy_matrix")]
+        if len(arrs) != 2:
+            raise AnalysisError(f"{q}: the two adjacency matrices were not found")
+        lists = [get_kw(c, "nodelist") for c in arrs]
+        c1, c2 = (norm(x) if x is not None else None for x in lists)
+        # a nodelist that is None on some path (node sets differ: positional fallback) still counts when both calls receive the same name
+        if c1 is not None and c1 == c2 or (c1 is not None and c2 is not None and c1.startswith("sorted(") and c2.startswith("sorted(")):
+            ctx.ok("node.common-order", m, arrs[0], what=f"{q}: both adjacency matrices in one common node order")
+        else:
+            ctx.fail("node.common-order", m, arrs[1],
+                     f"{q} builds the two adjacency matrices without a common nodelist: each graph is laid out in its own insertion order, so two equal "
+                     f"labelled graphs whose nodes were added in a different order are compared as differently labelled graphs (a graph is then reported "
+                     f"not LC-equivalent to itself)", func=q, construct=f"{q}: no common node order")
+
+
+# --------------------------------------------------------------------------- iso.bounded
+
+
+def rule_iso_bounded(ctx: Ctx) -> None:
+    """iso.bounded: iso_finder never returns more matrices than requested.  Every return hands back `X[:n_iso]`, or a name whose last
+    assignment before the return (same block, no re-binding in between) is such a slice, or — inside the search loop
+    `while len(X) < n_iso ...` — the array as it was when the loop condition was tested (no re-binding of X earlier in that iteration)."""
+    repo = ctx.repo
+    m = repo.module(RELABEL)
+    fn = repo.anchor(RELABEL, "iso_finder")
+    ctx.touch(m, fn)
+    N = func_params(fn)[1]
+
+    def is_cut(e):
+        return isinstance(e, ast.Subscript) and isinstance(e.slice, ast.Slice) and e.slice.lower is None and e.slice.upper is not None \
+            and norm(e.slice.upper) == N and e.slice.step is None
+
+    n = 0
+    for r in [x for x in ast.walk(fn) if isinstance(x, ast.Return) and x.value is not None]:
+        v = r.value.elts[0] if isinstance(r.value, ast.Tuple) and r.value.elts else r.value
+        n += 1
+        if is_cut(v):
+            ctx.ok("iso.bounded", m, r, what="returns X[:n_iso]")
+            continue
+        if not isinstance(v, ast.Name):
+            ctx.fail("iso.bounded", m, r, f"iso_finder returns `{short(v)}`, which is not cut to the {N} requested matrices", func="iso_finder",
+                     construct="iso_finder: unbounded return")
+            continue
+        # walk back through the enclosing blocks
+        ok = False
+        q = r
+        while parent(q) is not None and q is not fn and not ok:
+            blk = parent(q)
+            for name in ("body", "orelse", "finalbody"):
+                body = getattr(blk, name, None)
+                if isinstance(body, list) and any(q is b for b in body):
+                    before = body[:[i for i, b in enumerate(body) if b is q][0]]
+                    last = None
+                    for st in before:
+                        for a in ast.walk(st):
+                            if isinstance(a, ast.Assign) and any(isinstance(t, ast.Name) and t.id == v.id for t in a.targets):
+                                last = (a, st)
+                    if last is not None:
+                        a, st = last
+                        # the cut must be unconditional in this block (a top-level statement of it), not inside a nested if
+                        ok = is_cut(a.value) and a is st
+                        q = fn      # decided either way: stop climbing
+                        break
+                    if isinstance(blk, ast.While) and name == "body":
+                        t = norm(blk.test)
+                        if f"len({v.id}) < {N}" in t and isinstance(blk.test, (ast.BoolOp, ast.Compare)) and \
+                                (not isinstance(blk.test, ast.BoolOp) or isinstance(blk.test.op, ast.And)):
+                            ok = True
+                            q = fn
+                            break
+            else:
+                q = blk
+                continue
+            break
+        if ok:
+            ctx.ok("iso.bounded", m, r, what=f"`{v.id}` is cut to {N} (or shorter by the loop condition) when returned")
+        else:
+            ctx.fail("iso.bounded", m, r,
+                     f"iso_finder returns `{v.id}` on a path where it was not cut to `[:{N}]`: the enlarging search loop can overshoot, and more matrices than "
+                     f"requested come back", func="iso_finder", construct="iso_finder: unbounded return")
+    if n == 0:
+        raise AnalysisError("iso_finder: no return")
 
 
 # --------------------------------------------------------------------------- cmp.labelled-graphs
